@@ -123,6 +123,13 @@ def h_buf_new(w, st, rec):
     elif rec.get("as") == "1d" and isinstance(v, np.ndarray) and v.size == 1:
         v = v.reshape(1).copy()
         w.probes["buf.lower_rank"] += 1
+    elif rec.get("as") == "pandas" and isinstance(v, np.ndarray) and v.ndim in (1, 2) and v.size \
+            and v.dtype.kind in "fi":
+        import pandas as pd
+        base = np.array(v, copy=True)
+        st.bufs[rec["id"] + ".base"] = base
+        v = pd.Series(base, copy=False) if base.ndim == 1 else pd.DataFrame(base, copy=False)
+        w.probes["buf.pandas"] += 1
     elif rec.get("as") == "roview" and isinstance(v, np.ndarray) and v.size:
         # a read-only view of storage the caller can still write to (np.broadcast_to, np.diagonal, ... give such)
         st.bufs[rec["id"] + ".base"] = v
@@ -179,7 +186,8 @@ def spec_params(w, st, rec):
     for k in PARAMS[mtype]:
         v = build_arg(w, st, rec[k])
         params[k] = v
-        spec[k] = enc(v)
+        # private literal copy (pandas objects are recorded by value: the twin is built from an equal ndarray)
+        spec[k] = enc(np.array(np.asarray(v), copy=True)) if type(v).__module__.startswith("pandas") else enc(v)
     if mtype == "lganm":
         params["seed"] = spec["seed"] = rec.get("seed")
     if rec.get("bykw"):
@@ -485,6 +493,10 @@ def h_u_call(w, st, rec):
     mod = w.sempler.generators if name.startswith("gen.") else w.sempler.utils
     f = getattr(mod, name[4:] if name.startswith("gen.") else name)
     args = [build_arg(w, st, a) for a in rec["args"]]
+    if rec.get("same_object"):
+        i0, i1 = rec["same_object"]
+        args[i1] = args[i0]
+        w.probes["call.same_object_for_two_parameters"] += 1
     kw = {k: build_arg(w, st, v) for k, v in rec.get("kw", {}).items()}
     if "dtype" in kw and isinstance(kw["dtype"], str):
         kw["dtype"] = np.dtype(kw["dtype"])
@@ -535,10 +547,14 @@ def h_u_call(w, st, rec):
     if unseeded:
         w.probes["utils.unseeded_call"] += 1
     if rec.get("arm") is None and not unseeded:
-        key = jkey({"fn": name, "args": rec["args"], "kw": rec.get("kw", {})})
+        key = jkey({"fn": name, "args": rec["args"], "kw": rec.get("kw", {}), "same": rec.get("same_object")})
         compare_history(w, st, key, rec, out, site)
         if key not in st.oblig and not any_ref(rec):
-            st.oblig[key] = {"ops": [{"op": "u.call", "fn": name, "args": rec["args"], "kw": rec.get("kw", {})}],
+            lit = {"op": "u.call", "fn": name, "args": rec["args"], "kw": rec.get("kw", {})}
+            for flag in ("same_object", "bykw"):
+                if rec.get(flag):
+                    lit[flag] = rec[flag]
+            st.oblig[key] = {"ops": [lit],
                              "expect": (outcome_digest(*out), plain(out[1])), "step": w.step, "site": site,
                              "cls": "result_depends_on_history", "variant": "pristine"}
     if out[0] == "ok" and rec.get("keep"):
@@ -641,6 +657,10 @@ def h_scribble(w, st, rec):
                     e.b += 1.0
                     done = True
                     w.probes["scribble.in:ParamCallable"] += 1
+                elif how == "param" and isinstance(getattr(e, "keywords", None), dict) and "coefs" in e.keywords:
+                    e.keywords["coefs"] += 1.0          # the array bound by a functools.partial
+                    done = True
+                    w.probes["scribble.in:partial_bound_array"] += 1
                 elif how == "param" and hasattr(getattr(e, "__self__", None), "coefs"):
                     e.__self__.coefs += 1.0          # the object behind a bound method
                     e.__self__.b += 1.0
@@ -659,6 +679,9 @@ def h_scribble(w, st, rec):
                     b[k] = w.fn(["lin", [9.0], 9.0]) if tgt.endswith(".assign") else w.fn(["noise.uniform", 5, 6])
                     done = True
                     w.probes["scribble.in:" + tgt.split(".")[1] + "_list"] += 1
+        elif type(b).__module__.startswith("pandas"):
+            # the caller works on its frame in place (through the array the frame was built on)
+            done = scribble_array(st.bufs.get(tgt + ".base"), how) if (tgt + ".base") in st.bufs else False
         elif isinstance(b, np.ndarray):
             if not b.flags.writeable and (tgt + ".base") in st.bufs:
                 done = scribble_array(st.bufs[tgt + ".base"], how)      # the storage behind a read-only view
@@ -1010,6 +1033,9 @@ def gen_model(g, gs, cfg, ops, c, invalid=False):
         if g.random() < 0.3:
             lo = G.r2(g, 0.2, 1)
             rec["variances"] = enc((lo, round(lo + G.r2(g, 0, 2), 2)))
+        elif is_ref(rec["means"]) and g.random() < 0.05 and ops[-1].get("op") == "buf.new" and \
+                ops[-1].get("as") == "nd" and all(x > 0 for x in ops[-1]["value"]["__nd__"].get("data", [0])):
+            rec["variances"] = dict(rec["means"])      # one caller array serves as means and as variances
         else:
             rec["variances"] = arg(cast(G.rand_vec(g, p, 0.2, 2), g.choice(["<f8", "<f8", "<f4"]), g), must_nd=True)
         rec["seed"] = g.choice(cfg["seeds"] + [None])
@@ -1032,6 +1058,12 @@ def gen_model(g, gs, cfg, ops, c, invalid=False):
         else:
             rec["mean"] = arg(mean)
             rec["cov"] = arg(cov)
+            if g.random() < 0.08:
+                for key in ("mean", "cov"):         # pandas objects (np.atleast_*d converts them without copying)
+                    if is_ref(rec[key]):
+                        for o in ops:
+                            if o.get("op") == "buf.new" and o.get("id") == rec[key]["__ref__"] and o.get("as") == "nd":
+                                o["as"] = "pandas"
         if g.random() < 0.2:
             rec["check_valid"] = g.choice(["raise", "warn"])
             if "seam.raise" in cfg["faults"] and g.random() < 0.3:
@@ -1497,6 +1529,7 @@ REQUIRED_PROBES = ["iv.do.non_source", "iv.shift.non_source", "iv.noise.non_sour
                    "history.aged_vs_twin", "sweep.fault_positions", "sweep.utils", "obs_law.checked", "obs_law.checked:anm", "obs_law.checked:nd", "buf.view", "gc.model_dropped",
                    "gc.model_id_reused", "two_models_from_one_caller_array", "model_from_generator_output", "buf.lower_rank",
                    "buf.readonly_view", "buf.column_vector", "call.by_keyword", "scribble.in:bound_method_owner", "scribble.in:model_object_held_by_a_callable",
+                   "scribble.in:partial_bound_array", "buf.pandas",
                    "utils.unseeded_call",
                    "nd.check_valid"]
 
